@@ -11,6 +11,7 @@ package common
 //@ ghost func (r *RollingIndex) AllStr() bool { return forall j int :: 0 <= j && j < len(r.items) ==> __dyn(r.items[j], "string") }
 
 //@ func (r *RollingIndex) GetLastWindow() (lastWindow []interface{}, lastIndex int)
+//@   safety on
 //@   requires r != nil
 //@   modifies nothing
 //@   ensures[window] __seqeq(lastWindow, r.items) && lastIndex == r.lastIndex
@@ -84,11 +85,13 @@ package common
 //@ ghost func (r *RollingIndex) Items() []interface{} { return r.items }
 
 //@ func NewRollingIndexMap(name string, size int) *RollingIndexMap
+//@   safety on
 //@   requires size >= 2 && size < 4611686018427387904
 //@   modifies nothing
 //@   ensures[fresh] ret0 != nil && __fresh(ret0) && ret0.wf() && ret0.AllStr() && (forall k uint32 :: !__in(k, ret0.mapping))
 
 //@ func (rim *RollingIndexMap) AddKey(key uint32) error
+//@   safety on
 //@   requires rim != nil && rim.wf()
 //@   ensures[typed]   old(rim.AllStr()) ==> rim.AllStr()
 //@   modifies rim.keys, rim.mapping[*]
@@ -98,6 +101,7 @@ package common
 //@   ensures[others]  forall k uint32 :: k != key ==> __in(k, rim.mapping) == old(__in(k, rim.mapping)) && rim.mapping[k] == old(rim.mapping[k])
 
 //@ func (rim *RollingIndexMap) Get(key uint32, skipIndex int) ([]interface{}, error)
+//@   safety on
 //@   ints checked
 //@   requires rim != nil && rim.wf()
 //@   modifies nothing
@@ -107,6 +111,7 @@ package common
 //@   ensures[suffix]  __in(key, rim.mapping) && skipIndex <= rim.mapping[key].lastIndex && skipIndex+1 >= rim.mapping[key].oldest() ==> ret1 == nil && len(ret0) == rim.mapping[key].lastIndex - skipIndex && (forall k int :: 0 <= k && k < len(ret0) ==> ret0[k] == rim.mapping[key].items[skipIndex+1+k-rim.mapping[key].oldest()])
 
 //@ func (rim *RollingIndexMap) GetItem(key uint32, index int) (interface{}, error)
+//@   safety on
 //@   ints checked
 //@   requires rim != nil && rim.wf() && __in(key, rim.mapping)
 //@   modifies nothing
@@ -115,6 +120,7 @@ package common
 //@   ensures[hit]      rim.mapping[key].oldest() <= index && index <= rim.mapping[key].lastIndex ==> ret1 == nil && ret0 == rim.mapping[key].items[index-rim.mapping[key].oldest()]
 
 //@ func (rim *RollingIndexMap) GetLast(key uint32) (interface{}, error)
+//@   safety on
 //@   requires rim != nil && rim.wf()
 //@   modifies nothing
 //@   ensures[unknown] !__in(key, rim.mapping) ==> IsStore(ret1, KeyNotFound)
@@ -122,6 +128,7 @@ package common
 //@   ensures[last]    __in(key, rim.mapping) && len(rim.mapping[key].items) > 0 ==> ret1 == nil && ret0 == rim.mapping[key].items[len(rim.mapping[key].items)-1]
 
 //@ func (rim *RollingIndexMap) Set(key uint32, item interface{}, index int) error
+//@   safety on
 //@   ints checked
 //@   ensures[typed]   old(rim.AllStr()) && __dyn(item, "string") ==> rim.AllStr()
 //@   requires rim != nil && rim.wf() && __in(key, rim.mapping) && index >= 0 && index < 4611686018427387904
@@ -133,6 +140,7 @@ package common
 //@   ensures[toolate] 0 <= old(rim.mapping[key].lastIndex) && index < old(rim.mapping[key].oldest()) ==> IsStore(ret0, TooLate) && __seqeq(rim.mapping[key].items, old(rim.mapping[key].items)) && rim.mapping[key].lastIndex == old(rim.mapping[key].lastIndex)
 
 //@ func (rim *RollingIndexMap) Known() map[uint32]int
+//@   safety on
 //@   requires rim != nil && rim.wf()
 //@   modifies nothing
 //@   ensures[known] ret0 != nil && __fresh(ret0) && (forall k uint32 :: __in(k, ret0) == __in(k, rim.mapping)) && (forall k uint32 :: __in(k, rim.mapping) ==> ret0[k] == rim.mapping[k].lastIndex)
@@ -227,6 +235,7 @@ package common
 //@ ghost func (c *LRU) view() bool { return forall k interface{} :: __in(k, G_m(c)) == __in(k, c.items) && (__in(k, c.items) ==> G_m(c)[k] == c.items[k].Value.(*entry).value) }
 
 //@ func NewLRU(size int, onEvict EvictCallback) *LRU
+//@   safety on
 //@   requires onEvict == nil
 //@   modifies nothing
 //@   ghostset G_m(ret0) :| ret0.view()
@@ -234,12 +243,14 @@ package common
 //@   establishes[inv] ret0.rep() && ret0.view() && ret0.size == size
 
 //@ func (c *LRU) removeElement(e *list.Element)
+//@   safety on
 //@   requires c != nil && c.rep() && __in(e, G_elems(c.evictList))
 //@   modifies c.items[*], G_elems(c.evictList), G_n(c.evictList), G_front(c.evictList)
 //@   ensures[rep]     c.rep() && G_n(c.evictList) == old(G_n(c.evictList)) - 1
 //@   ensures[removed] !__in(old(e.Value.(*entry).key), c.items) && (forall k interface{} :: k != old(e.Value.(*entry).key) ==> __in(k, c.items) == old(__in(k, c.items)) && c.items[k] == old(c.items[k]))
 
 //@ func (c *LRU) removeOldest()
+//@   safety on
 //@   requires c != nil && c.rep()
 //@   modifies c.items[*], G_elems(c.evictList), G_n(c.evictList), G_front(c.evictList)
 //@   ensures[rep]   c.rep()
@@ -247,6 +258,7 @@ package common
 //@   ensures[sub]   forall k interface{} :: __in(k, c.items) ==> old(__in(k, c.items)) && c.items[k] == old(c.items[k])
 
 //@ func (c *LRU) Add(key, value interface{}) bool
+//@   safety on
 //@   assume[inv] c.rep() && c.view()
 //@   requires c != nil
 //@   modifies G_m(c), c.items[*], any entry.value, G_elems(c.evictList), G_n(c.evictList), G_front(c.evictList)
@@ -256,6 +268,7 @@ package common
 //@   ensures[present] c.size >= 1 ==> __in(key, G_m(c))
 
 //@ func (c *LRU) Get(key interface{}) (value interface{}, ok bool)
+//@   safety on
 //@   assume[inv] c.rep() && c.view()
 //@   requires c != nil
 //@   modifies G_front(c.evictList)
@@ -279,6 +292,7 @@ package common
 //@   ensures[empty] forall k interface{} :: !__in(k, G_m(c))
 
 //@ func (c *LRU) Remove(key interface{}) bool
+//@   safety on
 //@   assume[inv] c.rep() && c.view()
 //@   requires c != nil
 //@   modifies G_m(c), c.items[*], G_elems(c.evictList), G_n(c.evictList), G_front(c.evictList)
@@ -289,6 +303,7 @@ package common
 //@   ensures[others]  forall k interface{} :: k != key ==> __in(k, G_m(c)) == old(__in(k, G_m(c))) && (__in(k, G_m(c)) ==> G_m(c)[k] == old(G_m(c))[k])
 
 //@ func (c *LRU) RemoveOldest() (interface{}, interface{}, bool)
+//@   safety on
 //@   assume[inv] c.rep() && c.view()
 //@   requires c != nil
 //@   modifies G_m(c), c.items[*], G_elems(c.evictList), G_n(c.evictList), G_front(c.evictList)
@@ -299,12 +314,14 @@ package common
 //@   ensures[others]  forall k interface{} :: (!ret2 || k != ret0) ==> __in(k, G_m(c)) == old(__in(k, G_m(c))) && (__in(k, G_m(c)) ==> G_m(c)[k] == old(G_m(c))[k])
 
 //@ func (c *LRU) Contains(key interface{}) (ok bool)
+//@   safety on
 //@   assume[inv] c.rep() && c.view()
 //@   requires c != nil
 //@   modifies nothing
 //@   ensures[contains] ok == __in(key, G_m(c))
 
 //@ func (c *LRU) Peek(key interface{}) (value interface{}, ok bool)
+//@   safety on
 //@   assume[inv] c.rep() && c.view()
 //@   requires c != nil
 //@   modifies nothing
